@@ -4,6 +4,7 @@ import (
 	"bytes"
 	"encoding/json"
 	"fmt"
+	"github.com/robfig/soy/soyjs"
 	"net/url"
 	"os"
 	"strconv"
@@ -35,6 +36,9 @@ type C16Case struct {
 	// InMsg: the print command is the second placeholder of a translated message whose first
 	// placeholder prints the same value through the same directive with another limit
 	InMsg bool `json:"in_msg,omitempty"`
+	// Gen (JavaScript cases): the directive is reached through the generated code of the template
+	// {$x|directive} (1: autoescaping off for the namespace, 2: on) instead of by calling its function
+	Gen int `json:"gen,omitempty"`
 }
 
 var c16Pieces = []string{"a", "b", " ", "  ", "\n", "\r\n", "\r", "\t", "&", "<", ">", "\"", "'", "&lt;", "&amp;", "&#39;", "<b>", "</b>", "<a href=\"x\">", "é", "ü", "日本語", "𝄞", "\U0010FFFF", "%", "+", "/", "?", "=", "#", "~", "-", "_", ".", "!", "*", "(", ")", "\\", " ", " ", "</script>", "\x00", "\x01", "\x7f", "word", "averyveryverylongwordwithoutanyspaces", "%41", "%zz", "{", "}", ";", ":", "@", ",", "$", "[", "]", "|", "^", "`"}
@@ -71,6 +75,9 @@ func genC16(t *rapid.T) C16Case {
 			c.Arg = 0
 		}
 		c.Ell = rapid.IntRange(0, 2).Draw(t, "ell")
+	}
+	if c.JS {
+		c.Gen = rapid.SampledFrom([]int{0, 1, 2}).Draw(t, "gen")
 	}
 	c.InLoop = !c.JS && rapid.IntRange(0, 3).Draw(t, "inLoop") == 0
 	c.InMsg = !c.JS && !c.InLoop && rapid.IntRange(0, 3).Draw(t, "inMsg") == 0 && !strings.ContainsAny(c.Value.S, "«»") && !strings.Contains(c.Value.S, c16Sep)
@@ -191,6 +198,44 @@ func applyGoInMsg(c C16Case) (string, error) {
 		return "", fmt.Errorf("render of the message lost a separator: %q", trunc(buf.String(), 300))
 	}
 	return parts[1], nil
+}
+
+// applyJSGenerated runs the JavaScript generated for the one-print template with $x = the value.
+func applyJSGenerated(c C16Case) (string, error) {
+	mode := "false"
+	ds := c.directives()
+	if c.Gen == 2 {
+		// under autoescaping the directives that produce HTML cancel it; the others get |noAutoescape so
+		// that the directive's own output is what is judged
+		mode = "true"
+		switch c.Dir {
+		case "changeNewlineToBr", "insertWordBreaks":
+		default:
+			ds = append(ds, ref.Directive{Name: "noAutoescape"})
+		}
+	}
+	p := ref.Program{Files: []ref.File{{Name: "d.soy", Namespace: "dgen", Autoescape: mode, Templates: []ref.Template{{Name: "t", Params: []ref.ParamDecl{{Name: "x"}},
+		Body: []ref.Cmd{{K: "print", Expr: varE("x"), Directives: ds}}}}}}}
+	names, srcs := gen.Sources(&p)
+	cb, err, pn := compileBundle(names, srcs, nil)
+	if err != nil || pn != nil {
+		return "", fmt.Errorf("compile: %v %v", err, pn)
+	}
+	files, err := jsSources(cb, soyjs.Options{}, false)
+	if err != nil {
+		return "", err
+	}
+	resp, err := theNode.do(jsRequest{Files: files, Calls: []jsCall{{Name: "dgen.t", Data: map[string]interface{}{"x": c.Value.S}}}})
+	if err != nil {
+		return "", fmt.Errorf("infra: %v", err)
+	}
+	if resp.Load[0] != nil {
+		return "", fmt.Errorf("generated JavaScript does not load: %s\n%s", *resp.Load[0], files[0].Src)
+	}
+	if !resp.Results[0].OK {
+		return "", fmt.Errorf("generated function threw %s\n%s", resp.Results[0].Error, files[0].Src)
+	}
+	return resp.Results[0].Out, nil
 }
 
 func jsStr(s string) string { b, _ := json.Marshal(s); return string(b) }
@@ -335,7 +380,9 @@ func checkC16(c C16Case) Verdict {
 	}
 	var out string
 	var err error
-	if c.JS {
+	if c.JS && c.Gen > 0 && c.Value.K == ref.String {
+		out, err = applyJSGenerated(c)
+	} else if c.JS {
 		out, err = applyJS(c)
 	} else {
 		out, err = applyGo(c)
